@@ -342,7 +342,7 @@ def define(
 
     """
 
-    def do_it(cls, auto_attribs):
+    def do_it(cls, auto_attribs, on_setattr):
         return attrs(
             maybe_cls=cls,
             these=these,
@@ -374,13 +374,13 @@ def define(
 
         We also ensure that frozen-ness of classes is inherited.
         """
-        nonlocal frozen, on_setattr
+        cls_on_setattr = on_setattr
 
-        had_on_setattr = on_setattr not in (None, setters.NO_OP)
+        had_on_setattr = cls_on_setattr not in (None, setters.NO_OP)
 
         # By default, mutable classes convert & validate on setattr.
-        if frozen is False and on_setattr is None:
-            on_setattr = _DEFAULT_ON_SETATTR
+        if frozen is False and cls_on_setattr is None:
+            cls_on_setattr = _DEFAULT_ON_SETATTR
 
         # However, if we subclass a frozen class, we inherit the immutability
         # and disable on_setattr.
@@ -390,16 +390,16 @@ def define(
                     msg = "Frozen classes can't use on_setattr (frozen-ness was inherited)."
                     raise ValueError(msg)
 
-                on_setattr = setters.NO_OP
+                cls_on_setattr = setters.NO_OP
                 break
 
         if auto_attribs is not None:
-            return do_it(cls, auto_attribs)
+            return do_it(cls, auto_attribs, cls_on_setattr)
 
         try:
-            return do_it(cls, True)
+            return do_it(cls, True, cls_on_setattr)
         except UnannotatedAttributeError:
-            return do_it(cls, False)
+            return do_it(cls, False, cls_on_setattr)
 
     # maybe_cls's type depends on the usage of the decorator.  It's a class
     # if it's used as `@attrs` but `None` if used as `@attrs()`.
